@@ -1,5 +1,5 @@
 (* C04 — refresh tokens rotate: one use each; reuse kills the whole token family.  Statements only. *)
-From FositeModel Require Import Base.Str Model.Scope Model.Core Model.Flows Proofs.Decay Proofs.C04Proofs.
+From FositeModel Require Import Base.Str Model.Scope Model.Core Model.Flows Proofs.Decay Proofs.C04Proofs Cases.CasesHist Cases.Monitors Proofs.MonitorC04.
 
 (* each refresh token is exchanged successfully at most once, and a successful exchange returns a new pair *)
 Theorem C04_refresh_token_single_use :
@@ -57,3 +57,17 @@ Theorem C04_reuse_spares_other_grants :
   = introspect cfg s1 {| p_ref := CRef i; p_tampered := tampered |} hint scopes.
 Proof. exact reuse_spares_other_grants. Qed.
 Print Assumptions C04_reuse_spares_other_grants.
+
+(* the history monitor (Cases/Monitors.v judge_C04) on the model: whatever the tracker state, the model's answer to a
+   refresh never trips the clause "an accepted exchange returns a new access/refresh pair", and a presented token the
+   tracker has not seen exchanged never trips any clause *)
+Theorem C04_monitor_pair_clause_holds_of_the_model : forall cfg m s auth tok sm pr,
+  fst (fst (judge_C04 m (ORefresh auth tok sm) (snd (step cfg s (ORefresh auth tok sm))) pr))
+  <> Some "exchange_did_not_return_a_new_pair".
+Proof. exact judge_C04_pair_clause_sound. Qed.
+Print Assumptions C04_monitor_pair_clause_holds_of_the_model.
+Theorem C04_monitor_silent_on_a_token_not_yet_exchanged : forall cfg m s auth tok sm pr j c,
+  cred m tok = Some (j, c) -> memn j (m_used_rt m) = false ->
+  fst (fst (judge_C04 m (ORefresh auth tok sm) (snd (step cfg s (ORefresh auth tok sm))) pr)) = None.
+Proof. exact judge_C04_fresh_token_sound. Qed.
+Print Assumptions C04_monitor_silent_on_a_token_not_yet_exchanged.
